@@ -260,6 +260,8 @@ def run(ctx):
                 if pol and t.endswith('.residue_type == each(parameters.write_out_order)'.replace(
                         'parameters', func_params(sec)[2])):
                     kinds.append('residue-type')
+                elif pol and t.endswith('.use_in_calculations()'):
+                    pass        # the report filter itself (C01.R4 / C14.R2 decide what it admits)
                 else:
                     kinds.append('other: %s%s' % ('' if pol else 'not ', t[:80]))
             # the list the emitting loop runs over
@@ -269,9 +271,13 @@ def run(ctx):
             src = scan.expr(inner.iter) if inner is not None else None
             flt = []
             if isinstance(src, ast.ListComp):
+                from sa.astutil import flatten_and
                 for g in src.generators:
                     for cond in g.ifs:
-                        flt.append(norm(cond))
+                        for e, pol in flatten_and(cond, True):
+                            if pol and norm(e).endswith('.use_in_calculations()'):
+                                continue
+                            flt.append(('' if pol else 'not ') + norm(e))
                 src_iter = norm(src.generators[0].iter) if len(src.generators) == 1 else '?'
             else:
                 src_iter = norm(src) if src is not None else '?'
